@@ -174,6 +174,11 @@ pub fn sub(seed: u64) -> Program {
                     }
                 }
             }
+            // a slow consumer: stop() may then give up after its timeout while items are pending
+            if g.rng.chance(12) {
+                ops.push(Op::Next { it, n: 1 });
+                ops.push(Op::Sleep { ms: g.rng.pick(&[100u32, 3100, 5000]) });
+            }
             ops.push(Op::Drain { it });
             if g.rng.chance(50) {
                 ops.push(Op::DropIter { it });
@@ -525,6 +530,18 @@ pub fn two(seed: u64) -> Program {
             }
         }
         threads.push(ops);
+    }
+    // each store also has a subscriber of its own that some thread unsubscribes while both stores run
+    if g.rng.chance(50) {
+        for s in 0..2usize {
+            let kind = if g.rng.chance(50) { SubKind::Direct } else { SubKind::Channeled { cap: g.rng.pick(&[1usize, 2, 4]), policy: Policy::Block } };
+            subs.push(SubCfg { kind, read_state: false, gate: None, sleep_ms: 0, shared: false });
+            main.push(Op::AddSub { store: s, sub: subs.len() - 1, reg: regs });
+            let t = g.rng.range(1, threads.len() as u64 - 1) as usize;
+            let pos = g.rng.below(threads[t].len() as u64 + 1) as usize;
+            threads[t].insert(pos, Op::Unsub { reg: regs });
+            regs += 1;
+        }
     }
     // one store is stopped/dropped while the other is busy; the survivor keeps working
     let victim = g.rng.below(2) as usize;
